@@ -69,6 +69,7 @@ func c19Cases() []c19Case {
 	// strings
 	strs := []string{"", "a", "ab", "abc", "abcd", "abcde", "123", "true", "x"}
 	cases = append(cases,
+		c19Case{ID: "string.max_len_zero", Kind: "string", Rules: M{"string": M{"max_len": "0"}}, SProbe: []string{"", "a", "ab"}, Sat: func(_ float64, s string) bool { return len(s) == 0 }, Class: "zero-size-bound"},
 		c19Case{ID: "string.len", Kind: "string", Rules: M{"string": M{"min_len": "2", "max_len": "4"}}, SProbe: strs, Sat: func(_ float64, s string) bool { return len(s) >= 2 && len(s) <= 4 }, Class: "string"},
 		c19Case{ID: "string.const", Kind: "string", Rules: M{"string": M{"const": "abc"}}, SProbe: strs, Sat: func(_ float64, s string) bool { return s == "abc" }, Class: "string"},
 		c19Case{ID: "string.in", Kind: "string", Rules: M{"string": M{"in": []any{"ab", "x"}}}, SProbe: strs, Sat: func(_ float64, s string) bool { return s == "ab" || s == "x" }, Class: "string"},
@@ -263,6 +264,24 @@ func init() {
 			return out
 		}
 		out["deviations"] = devs
+		by := map[string][]c19Deviation{}
+		for _, d := range devs {
+			by[d.Class] = append(by[d.Class], d)
+		}
+		var ks []string
+		for k := range by {
+			ks = append(ks, k)
+		}
+		sort.Strings(ks)
+		var fl []map[string]any
+		for _, k := range ks {
+			var cs []string
+			for _, d := range by[k] {
+				cs = append(cs, d.Case)
+			}
+			fl = append(fl, map[string]any{"name": "C19.family." + k, "case": strings.Join(cs, ", "), "observed": by[k][0].What + " | " + by[k][0].Schema, "parameter": ""})
+		}
+		out["failures"] = fl
 		out["status"] = "ran"
 		return out
 	}
